@@ -432,4 +432,96 @@ theorem getLocationRdb_eq_lookupRes {s : Store} {mapID : Bytes} {P : List Point}
   rw [hc] at hlt
   exact getLocationRdb_core hrep hwf hmap c _ (by omega) (natToIP_ipToNat hc).symm
 
+/-! ### satisfiability: the single-map database built from the table -/
+
+theorem insert_fresh (s : Store) (k v : Bytes) (h : ∀ e ∈ s, e.1 ≠ k) :
+    s.insert k v = s ++ [(k, [v])] := by
+  unfold Store.insert
+  have : s.any (fun e => decide (e.1 = k)) = false := by
+    rw [List.any_eq_false]
+    intro e he
+    simpa using h e he
+  rw [this]
+  rfl
+
+theorem ofKVs_fresh (kvs : List (Bytes × Bytes)) :
+    ∀ s : Store, kvs.Pairwise (fun u v => u.1 ≠ v.1) → (∀ kv ∈ kvs, ∀ e ∈ s, e.1 ≠ kv.1) →
+      kvs.foldl (fun s kv => s.insert kv.1 kv.2) s = s ++ kvs.map fun kv => (kv.1, [kv.2]) := by
+  induction kvs with
+  | nil => intro s _ _; simp
+  | cons kv kvs ih =>
+    intro s hpw hs
+    obtain ⟨hkv, hpw'⟩ := List.pairwise_cons.1 hpw
+    rw [List.foldl_cons, insert_fresh s kv.1 kv.2 (hs kv List.mem_cons_self), ih _ hpw', List.map_cons,
+      List.append_assoc]
+    · rfl
+    · intro kv' hkv' e he
+      rcases List.mem_append.1 he with he | he
+      · exact hs kv' (List.mem_cons_of_mem _ hkv') e he
+      · rw [List.mem_singleton] at he
+        rw [he]
+        exact hkv kv' hkv'
+
+theorem pointKV_fst_ne (mapID : Bytes) {u v : Point} (hu : u.ip < 2 ^ 128) (hv : v.ip < 2 ^ 128)
+    (hmu : u.maskLen < 256) (hmv : v.maskLen < 256) (hne : pkey u ≠ pkey v) :
+    (pointKV mapID u).1 ≠ (pointKV mapID v).1 := by
+  rw [pointKV_fst mapID u hmu, pointKV_fst mapID v hmv]
+  have h1 := bytesLt_skey mapID hu hv (pkey_snd_lt u) (pkey_snd_lt v)
+  have h2 := bytesLt_skey mapID hv hu (pkey_snd_lt v) (pkey_snd_lt u)
+  intro heq
+  rw [heq, bytesLt_irrefl] at h1
+  rw [heq, bytesLt_irrefl] at h2
+  apply hne
+  unfold keyLt at h1 h2
+  have h1' := of_decide_eq_false h1.symm
+  have h2' := of_decide_eq_false h2.symm
+  apply Prod.ext
+  · show u.ip = v.ip; omega
+  · omega
+
+/-- the database that holds just the table's points represents the table -/
+theorem rdbRep_ofKVs {mapID : Bytes} {P : List Point} (hwf : TableWF P) :
+    RdbRep (Store.ofKVs (P.map (pointKV mapID))) mapID P := by
+  have hpw : (P.map (pointKV mapID)).Pairwise (fun u v => u.1 ≠ v.1) := by
+    rw [List.pairwise_map]
+    have := hwf.keys_distinct
+    have hall : P.Pairwise fun u v => u ∈ P ∧ v ∈ P ∧ pkey u ≠ pkey v :=
+      List.Pairwise.and_mem.1 this
+    exact hall.imp fun {u v} h =>
+      pointKV_fst_ne mapID (hwf.ip_lt u h.1) (hwf.ip_lt v h.2.1) (hwf.ml_lt u h.1)
+        (hwf.ml_lt v h.2.1) h.2.2
+  have hs : Store.ofKVs (P.map (pointKV mapID))
+      = P.map fun p => ((pointKV mapID p).1, [(pointKV mapID p).2]) := by
+    unfold Store.ofKVs
+    rw [ofKVs_fresh _ [] hpw (by intro _ _ e he; cases he), List.nil_append, List.map_map]
+    rfl
+  rw [hs]
+  refine ⟨?_, ?_, ?_⟩
+  · rw [List.pairwise_map]
+    rw [List.pairwise_map] at hpw
+    exact hpw
+  · intro p hp
+    exact List.mem_map.2 ⟨p, hp, rfl⟩
+  · intro e he _
+    obtain ⟨p, hp, rfl⟩ := List.mem_map.1 he
+    exact ⟨p, hp, rfl⟩
+
+/-- a concrete 3-point table: 10.0.0.0/8 → location `[1, 1]` -/
+def exampleTable : List Point :=
+  [⟨0, 0, none, .start⟩, ⟨0xffff0a000000, 104, some [1, 1], .start⟩, ⟨0xffff0b000000, 0, none, .stop⟩]
+
+/-- non-vacuity: the concrete table is well-formed … -/
+theorem exampleTable_wf : TableWF exampleTable :=
+  ⟨by decide, by decide, by decide, by decide, ⟨⟨0, 0, none, .start⟩, by decide, rfl⟩⟩
+
+/-- … so all hypotheses of the main theorem hold for its database, for every client -/
+example (c : ClientNet) (hc : (maskedClientIP c).length = 16) :
+    getLocationRdb (Store.ofKVs (exampleTable.map (pointKV [0, 7]))) c [0, 7] =
+      .ok (lookupRes exampleTable (ipToNat (maskedClientIP c))
+        ((c.maskOnes + (if isIPv4 c then 96 else 0)) % 256)) :=
+  getLocationRdb_eq_lookupRes (rdbRep_ofKVs exampleTable_wf) exampleTable_wf rfl c hc
+
+/-- and the search finds 10.0.0.0/8 for 10.1.2.0/24 -/
+example : lookupRes exampleTable 0xffff0a010200 120 = (some [1, 1], 104) := by decide
+
 end DnsVerif.Lpm
